@@ -334,7 +334,11 @@ skipSpace:
 				case escNewl:
 					// A comment cannot be continued with a backslash,
 					// and the newline which ends it is not part of it.
-					p.litBs = append(p.litBs, '\\')
+					// That newline still ends the line like any other.
+					p.litBs = append(p.litBs, '\\', '\n')
+					p.col++
+					p.w, p.r = 1, '\n'
+					r = p.r
 					break runeLoop
 				case '`':
 					if p.backquoteEnd() {
